@@ -5,7 +5,7 @@ from pyvc import native
 
 
 def run(rep, tier, seed):
-    verify_all(rep, k_offset.specs('C11') + k_offset.specs_text('C11'))
+    verify_all(rep, k_offset.specs('C11') + k_offset.specs_text('C11') + k_offset.specs_entry('C11'))
     sec = native.run('b_raw', 'main', {'props': ['C11'], 'tier': tier, 'seed': seed, 'ops': ['offset']})
     sec['native_entry'] = ('b_raw', 'replay')
     rep.bounded(sec)
